@@ -35,6 +35,7 @@ vars == <<heap, act, ret>>
 
 RObj(o) == [k |-> "obj", o |-> o, v |-> <<>>]
 RNew(v) == [k |-> "new", o |-> 0, v |-> v]
+RAny    == [k |-> "any", o |-> 0, v |-> <<>>]
 
 N(h) == Len(h[1])
 
@@ -62,6 +63,13 @@ Post(h, A) ==
          [heap |-> h, ret |-> RNew(VBin(A.f, h[A.y], h[A.x]))]
     [] A.op = "iabin" ->         \* x f= arr
          [heap |-> Put(h, A.x, VBin(A.f, h[A.x], h[A.y])), ret |-> RObj(A.x)]
+    [] A.op = "pbin" ->          \* power-space broadcasting: X f y, y an element of the COMPONENT space: every component f y
+         [heap |-> h, ret |-> RNew(VBin(A.f, h[A.x], h[A.y]))]      \* (object y holds one component-period)
+    [] A.op = "rpbin" ->         \* y f X
+         [heap |-> h, ret |-> RNew(VBin(A.f, h[A.y], h[A.x]))]
+    [] A.op = "ipbin" ->         \* X f= y
+         \* the components are updated in place; which wrapper object Python rebinds the name to is not specified
+         [heap |-> Put(h, A.x, VBin(A.f, h[A.x], h[A.y])), ret |-> RAny]
     [] A.op = "sbin" ->          \* x f c          (scalar broadcast: c stands for c*one)
          [heap |-> h, ret |-> RNew(VBin(A.f, h[A.x], VConst(n, A.a)))]
     [] A.op = "rsbin" ->         \* c f x          (reflected)
@@ -106,9 +114,9 @@ Acts(h) ==
   \cup { A \in { [NoAct EXCEPT !.op = "ibin", !.f = f, !.x = x, !.y = y] :
                    f \in Ops2, x \in Obj, y \in Obj } : DivOk(h, A.f, h[A.y]) }
   \cup { A \in { [NoAct EXCEPT !.op = op, !.f = f, !.x = x, !.y = y] :
-                   op \in {"abin", "iabin"}, f \in Ops2, x \in Obj, y \in Obj } : A.x # A.y /\ DivOk(h, A.f, h[A.y]) }
-  \cup { A \in { [NoAct EXCEPT !.op = "rabin", !.f = f, !.x = x, !.y = y] :
-                   f \in Ops2, x \in Obj, y \in Obj } : A.x # A.y /\ DivOk(h, A.f, h[A.x]) }
+                   op \in {"abin", "iabin", "pbin", "ipbin"}, f \in Ops2, x \in Obj, y \in Obj } : A.x # A.y /\ DivOk(h, A.f, h[A.y]) }
+  \cup { A \in { [NoAct EXCEPT !.op = op, !.f = f, !.x = x, !.y = y] :
+                   op \in {"rabin", "rpbin"}, f \in Ops2, x \in Obj, y \in Obj } : A.x # A.y /\ DivOk(h, A.f, h[A.x]) }
   \cup { A \in { [NoAct EXCEPT !.op = "sbin", !.f = f, !.x = x, !.a = a] :
                    f \in Ops2, x \in Obj, a \in Scalars } : A.f # "div" \/ A.a # CZero }
   \cup { A \in { [NoAct EXCEPT !.op = "rsbin", !.f = f, !.x = x, !.a = a] :
@@ -141,11 +149,11 @@ Spec == Init /\ [][Next]_vars
 (* ------------------------------ properties ----------------------------- *)
 \* the object an action writes (0 = none)
 Target(A) == CASE A.op \in {"lincomb", "lincomb1", "multiply", "divide"} -> A.o
-               [] A.op \in {"ibin", "iabin", "isbin", "ipow", "assign", "set_zero"} -> A.x
+               [] A.op \in {"ibin", "iabin", "ipbin", "isbin", "ipow", "assign", "set_zero"} -> A.x
                [] OTHER -> 0
 
 \* operands read by an action
-Reads(A) == CASE A.op \in {"lincomb", "bin", "ibin", "abin", "rabin", "iabin", "multiply", "divide"} -> {A.x, A.y}
+Reads(A) == CASE A.op \in {"lincomb", "bin", "ibin", "abin", "rabin", "iabin", "pbin", "rpbin", "ipbin", "multiply", "divide"} -> {A.x, A.y}
               [] A.op = "assign" -> {A.y}
               [] A.op \in {"zero", "one", "set_zero"} -> {}
               [] OTHER -> {A.x}
@@ -161,7 +169,7 @@ StaleOutputIndependent ==
           \A g \in VecSet : Post(Put(heap, t, g), A).heap[t] = heap'[t]]_vars
 
 \* C01: an in-place call returns the very object it wrote
-ReturnsTarget == [][Target(act') # 0 => ret' = RObj(Target(act'))]_vars
+ReturnsTarget == [][(Target(act') # 0 /\ act'.op # "ipbin") => ret' = RObj(Target(act'))]_vars
 
 \* sanity of layer A: derived arithmetic agrees with the linear combination it is documented to be
 DerivedAgree ==
